@@ -197,6 +197,10 @@ def runSection (r : Report) (s : Section) : Report := Id.run do
         r := r.addCover "lc-waited-for-running-call"
     if mode = "rm" then
       if o.created then r := r.addCover "rm-created"
+      if o.ran && o.nilv then r := r.addCover s!"rm-loader-returned-nil-nil({if via = "" then "GetResource" else via})"
+      if !o.ran && o.panicked && h.any (fun l => l.key = o.key && l.ran && l.nilv && l.id ≠ o.id) then
+        r := r.addCover "rm-caller-of-a-key-holding-the-nil-instance-panics"
+      if !o.ran && !o.panicked && h.any (fun l => some l.id = o.val && l.nilv) then r := r.addCover s!"{via}-got-the-cached-nil-instance"
       if o.ran && o.failed && !o.spanic then r := r.addCover "rm-create-failed"
       if !o.ran && o.val.isSome then r := r.addCover "rm-got-existing"
       if (inj.lookup o.key).isSome then r := r.addCover "rm-call-on-registered-key"
